@@ -128,6 +128,7 @@ def for_loop(e):
                 if p['k'] == 'Variant' and p['variant'] == 'Some' and p['subs']:
                     q = unwrap_pat(p['subs'][0]['pat'])
                     if q['k'] == 'Binding': return (q['var'], lo, hi, inclusive, a['body'])
+                    if q['k'] == 'Wild': return (None, lo, hi, inclusive, a['body'])        # `for _ in a..b`: only the count matters
             break
     return None
 
@@ -205,6 +206,50 @@ def top_level_loops(body):
 PATTERN = [None]
 CRATE = [None]
 
+def induction_variable(fx, ibody, jnode, jbody, fmt_tuple, names):
+    """the formatted index is a running accumulator: `let mut c = S;` before the inner loop, one `c += T` per iteration (S, T in i, n).
+    In iteration j (counted from the loop's lower bound... the analysis uses j as the loop variable of the inner range) the value
+    written is S + (j - lo)*T when the increment follows the write, S + (j - lo + 1)*T when it precedes it.  Returns the polynomial,
+    or None when fx is not such a variable."""
+    var = fx['var']
+    if var in names: return None
+    init = None
+    for b in walk(ibody):
+        if b['k'] != 'Block': continue
+        for st in b['stmts']:
+            if st['k'] == 'Let' and st.get('init') is not None:
+                q = unwrap_pat(st['pat'])
+                if q['k'] == 'Binding' and q['var'] == var and q.get('mutable'): init = st['init']
+    if init is None: return None
+    inner_ids = set(id(x) for x in walk(jnode))
+    if any(id(x) in inner_ids for x in walk(init)): return None
+    updates = []; order = []
+    for x in walk(jbody):
+        if x['k'] == 'AssignOp' and x['lhs']['k'] == 'VarRef' and x['lhs']['var'] == var: updates.append(x); order.append(('upd', x))
+        elif x['k'] == 'Assign' and x['lhs']['k'] == 'VarRef' and x['lhs']['var'] == var: updates.append(x); order.append(('upd', x))
+        elif x is fmt_tuple: order.append(('write', x))
+    # assignments elsewhere in the outer body (outside the inner loop) would break the recurrence
+    for x in walk(ibody):
+        if id(x) not in inner_ids and x['k'] in ('Assign', 'AssignOp') and x['lhs']['k'] == 'VarRef' and x['lhs']['var'] == var: return None
+    if len(updates) != 1: raise NUndec('the running index %s is updated %d times per iteration' % (var.split('#')[0], len(updates)), jnode.get('loc'))
+    u = updates[0]
+    if any(y['k'] in ('If', 'Match', 'Loop') and any(z is u for z in walk(y)) for y in walk(jbody) if y is not jbody and y['k'] in ('If', 'Loop')): raise NUndec('conditional update of the running index', u.get('loc'))
+    if u['k'] == 'AssignOp':
+        if u['op'] not in ('AddAssign', 'Add'): raise NUndec('running index updated with %s' % u['op'], u.get('loc'))
+        T = poly_of(u['rhs'], names)
+    else:
+        r = strip(u['rhs'])
+        if not (r['k'] == 'Binary' and r['op'] == 'Add'): raise NUndec('running index is not advanced by addition', u.get('loc'))
+        if strip(r['lhs']).get('var') == var: T = poly_of(r['rhs'], names)
+        elif strip(r['rhs']).get('var') == var: T = poly_of(r['lhs'], names)
+        else: raise NUndec('running index is not advanced from its own value', u.get('loc'))
+    S = poly_of(init, names)
+    kinds = [k for k, _ in order]
+    if kinds == ['write', 'upd']: k0 = 0
+    elif kinds == ['upd', 'write']: k0 = 1
+    else: raise NUndec('cannot order the write and the update of the running index', jnode.get('loc'))
+    return ('acc', S, T, k0)
+
 def extract_nests(t, nvar):
     nests = []
     for (fl, e0) in top_level_loops(t['body']):
@@ -221,7 +266,8 @@ def extract_nests(t, nvar):
         if inner is None: raise NUndec('constraint loop without an inner index loop', e0.get('loc'))
         fl2, jnode = inner
         jvar, jlo, jhi, jinc, jbody = fl2[:5]
-        names2 = dict(names); names2[jvar] = 'j'
+        names2 = dict(names)
+        if jvar is not None: names2[jvar] = 'j'
         mapped = None
         if len(fl2) == 6:
             # the loop variable is E(j): read E from the closure, with the closure's parameter as j
@@ -242,9 +288,13 @@ def extract_nests(t, nvar):
         # the single formatted index inside the inner loop
         tuples = [x for x in walk(jbody) if x['k'] == 'Tuple' and len(x['fields']) == 1 and strip(x['fields'][0])['k'] in ('Binary', 'VarRef', 'Literal')]
         if len(tuples) != 1: raise NUndec('inner loop does not format exactly one index', jnode.get('loc'))
+        fx = strip(tuples[0]['fields'][0])
+        acc = induction_variable(fx, ibody, jnode, jbody, tuples[0], names) if fx['k'] in ('VarRef', 'UpvarRef') and mapped is None else None
         if mapped is not None:
             if root_var(tuples[0]['fields'][0]) != mapped[0] or strip(tuples[0]['fields'][0])['k'] not in ('VarRef', 'UpvarRef'): raise NUndec('inner loop over a mapped range must format the mapped value itself', jnode.get('loc'))
             E = poly_of(mapped[1], names2)
+        elif acc is not None:
+            E = acc
         else:
             E = poly_of(tuples[0]['fields'][0], names2)
         tmpl = [bytes(x['value']) for x in walk(jbody) if x['k'] == 'Literal' and x.get('lit') == 'ByteStr']
@@ -256,6 +306,11 @@ def extract_nests(t, nvar):
             except Exception:
                 pass
         if not item_ok: raise NUndec('inner loop does not emit `v_<index>,`', jnode.get('loc'))
+        if isinstance(E, tuple) and E and E[0] == 'acc':
+            _, S_, T_, k0 = E
+            jl = poly_of(jlo, names2)
+            # iteration with loop value j is number (j - jlo): written value S + (j - jlo + k0) * T
+            E = padd(S_, pmul(padd(padd(PV('j'), jl, -1), P(k0)), T_))
         nests.append({'ilo': poly_of(ilo, names), 'ihi': poly_of(ihi, names), 'iinc': iinc,
                       'jlo': poly_of(jlo, names2), 'jhi': poly_of(jhi, names2), 'jinc': jinc, 'E': E, 'text': outer_text,
                       'tokens': engine_l.tokenize_text(PATTERN[0], outer_text), 'loc': e0.get('loc')})
